@@ -2,6 +2,7 @@ package props
 
 import (
 	"go/ast"
+	"go/token"
 	"go/types"
 	"path/filepath"
 	"strings"
@@ -116,6 +117,42 @@ func hasPrefixAny(s string, pre ...string) bool {
 	for _, p := range pre {
 		if strings.HasPrefix(s, p) {
 			return true
+		}
+	}
+	return false
+}
+
+// absentEdge reports whether taking the pol-edge of cond entails that some
+// operand is absent (a non-error value is nil) or an error is present: the
+// two reasons for which an operation may legitimately be skipped.
+func absentEdge(info *types.Info, cond ast.Expr, pol bool) bool {
+	cond = ast.Unparen(cond)
+	switch x := cond.(type) {
+	case *ast.UnaryExpr:
+		if x.Op == token.NOT {
+			return absentEdge(info, x.X, !pol)
+		}
+	case *ast.BinaryExpr:
+		switch x.Op {
+		case token.LOR:
+			if pol {
+				return absentEdge(info, x.X, true) && absentEdge(info, x.Y, true)
+			}
+			return absentEdge(info, x.X, false) || absentEdge(info, x.Y, false)
+		case token.LAND:
+			if pol {
+				return absentEdge(info, x.X, true) || absentEdge(info, x.Y, true)
+			}
+			return absentEdge(info, x.X, false) && absentEdge(info, x.Y, false)
+		case token.EQL, token.NEQ:
+			if core.ExprStr(x.Y) != "nil" {
+				return false
+			}
+			isNil := (x.Op == token.EQL) == pol // on this edge X is nil
+			if t := info.TypeOf(x.X); t != nil && types.Identical(t, types.Universe.Lookup("error").Type()) {
+				return !isNil // an error is present
+			}
+			return isNil
 		}
 	}
 	return false
